@@ -79,6 +79,9 @@ type Action struct {
 	Data string `json:"data,omitempty"`
 	// nextBlock: consensus keys (pool indexes) whose validators did not sign the previous block
 	Absent []int `json:"absent,omitempty"`
+	// Sim: the action's transaction is not delivered but simulated on the node that records the
+	// history (tx simulation / gas estimation endpoint); it is part of no block
+	Sim bool `json:"sim,omitempty"`
 }
 
 func (a Action) String() string {
@@ -227,7 +230,11 @@ func (m *Machine) Step(a Action) error {
 	for _, inv := range m.Inv {
 		inv.Before(m, &a)
 	}
+	if a.Sim && simulatable(a.Kind) {
+		m.C.SimOnly = true
+	}
 	o, err := m.Apply(&a)
+	m.C.SimOnly = false
 	m.Log = append(m.Log, a)
 	m.Outs = append(m.Outs, o)
 	if err != nil {
@@ -235,6 +242,9 @@ func (m *Machine) Step(a Action) error {
 	}
 	if m.C.Halted != nil {
 		return m.C.Halted
+	}
+	if a.Sim && simulatable(a.Kind) {
+		m.label("simulated-not-delivered:" + a.Kind)
 	}
 	if o.OK {
 		m.label(a.Kind + ":ok")
@@ -638,4 +648,16 @@ func regTokenDecimals(a *Action) uint8 {
 		return uint8(a.Dec)
 	}
 	return 6
+}
+
+// simulatable: kinds whose whole effect is one transaction (kinds that end or begin blocks, or
+// call keepers directly, cannot be turned into a simulation).
+func simulatable(kind string) bool {
+	switch kind {
+	case "depositLST", "withdrawLST", "depositNST", "withdrawNST", "delegate", "undelegate", "associate", "dissociate",
+		"nativeDelegate", "nativeUndelegate", "optIn", "optOut", "setKey", "msgUnjail", "regOperator", "regChain", "regToken", "updToken",
+		"updateParams", "rawCall", "payFee", "govSubmit", "govDeposit", "govVote", "ethTx", "price":
+		return true
+	}
+	return strings.HasPrefix(kind, "avs")
 }
